@@ -164,6 +164,7 @@ def hypothesis_part(part, strategy, case_fn, examples, seed, nshards=None, shrin
         excluded = set()
         for rnd in range(max_rounds):
             found = {}
+            failed = {}
 
             phases = [Phase.explicit, Phase.generate] + ([Phase.shrink] if shrink else [])
 
@@ -173,6 +174,12 @@ def hypothesis_part(part, strategy, case_fn, examples, seed, nshards=None, shrin
                       verbosity=hypothesis.Verbosity.quiet)
             @given(strategy)
             def test(case):
+                if found:
+                    # replays of a failing case inside the same Hypothesis run must give the same verdict even when the
+                    # underlying check involves wall-clock behaviour (real sockets): memoise failures by case hash
+                    h = codec.case_hash(case)
+                    if h in failed:
+                        raise ViolationFound(case, failed[h])
                 v, info = case_fn(case)
                 if not found:
                     col.count(case, info, hash_of(case) if hash_of else None)
@@ -184,6 +191,7 @@ def hypothesis_part(part, strategy, case_fn, examples, seed, nshards=None, shrin
                         col.known[v.signature] += 1
                         return
                     found["last"] = (case, v)
+                    failed[codec.case_hash(case)] = v
                     raise ViolationFound(case, v)
 
             try:
@@ -194,6 +202,11 @@ def hypothesis_part(part, strategy, case_fn, examples, seed, nshards=None, shrin
                 excluded.add(v.bucket())
                 continue
             except hypothesis.errors.HypothesisException as e:
+                if isinstance(e, hypothesis.errors.FlakyFailure) and "last" in found:
+                    case, v = found["last"]
+                    handle(col, part, case, v)
+                    excluded.add(v.bucket())
+                    continue
                 raise env.HarnessError("hypothesis error in %s: %r" % (part, e))
             break
         return col
